@@ -199,23 +199,6 @@ def exact_monomial_integral(a, b, d):
     return (b ** (d + 1) - a ** (d + 1)) / (d + 1)
 
 
-def simpson_level0_deviation(e, d):
-    """what the level-0 row (h/3, h/3 instead of h/2, h/2) of every grouped Simpson container contributes to the
-    quadrature error of x^d: -c_{k,0} H/6 (f(l) + f(r)) with c_{k,0} = prod_{i=1..k} 1 / (1 - 8^i)"""
-    dev = Fr(0)
-    for c in e.slice_containers:
-        n = len(c.slices)
-        if n < 2:
-            continue
-        k = n.bit_length() - 1
-        c0 = Fr(1)
-        for i in range(1, k + 1):
-            c0 *= Fr(1) / (1 - Fr(8) ** i)
-        l, rr = Fr(c.left_point), Fr(c.right_point)
-        dev += -c0 * (rr - l) / 6 * (l ** d + rr ** d)
-    return dev
-
-
 # ------------------------------------------------------------------------------------------------ one grid through all configurations
 
 def check_extrapolation(ctx, drv, case, valid, complete_depth=None):
@@ -298,13 +281,8 @@ def check_extrapolation(ctx, drv, case, valid, complete_depth=None):
                                 devs.append((d, name, float(q), float(exact), q - exact))
                     if devs:
                         ok = False
-                        explained = False
-                        if cname == "SIMPSON_ROMBERG" and gname != "UNIT":
-                            explained = all(abs(float(dv - simpson_level0_deviation(e, d))) <= TOL_ORACLE * max(1.0, abs(float(dv)))
-                                            for d, _, _, _, dv in devs) and all(d <= 1 for d, _, _, _, _ in devs)
                         probe = "weights-sum-linear" if all(d <= 1 for d, _, _, _, _ in devs) else "degree"
-                        ctx.violation(probe, dict(tags, explained_by_simpson_level0_row=explained,
-                                                  max_container=max(len(c.slices) for c in e.slice_containers)), sub,
+                        ctx.violation(probe, dict(tags, max_container=max(len(c.slices) for c in e.slice_containers)), sub,
                                       {"failed": [(d, n, q, x) for d, n, q, x, _ in devs[:4]],
                                        "containers": [len(c.slices) for c in e.slice_containers]})
     return ok
@@ -509,7 +487,7 @@ def run_nd_calls(ctx, config, do_cache, calls, case):
                 bad = []
                 if want is None or got != want:
                     bad.append("differs from a fresh ExtrapolationGrid on this interval")
-                if not (cname == "SIMPSON_ROMBERG" and gname != "UNIT"):
+                if True:  # every container version (the Simpson level-0 row is repaired)
                     a, b = grids[d][0], grids[d][-1]
                     s0 = sum(Fr(x) for x in got)
                     s1 = sum(Fr(x) * p for x, p in zip(got, grids[d]))
